@@ -89,36 +89,52 @@ StaticCons(o) ==
     [] o.op \in PushOps -> <<Q(o.r, "Write")>>
     [] o.op \in DeleteOps -> <<Q(o.r, "Delete")>>
     [] o.op \in WriterOps -> <<>>
-Fails(pol, q) == pol[q.n][q.k] # PolOk
+\* A policy is a function of (name, kind) - of ANY name, well-formed or not.  It is given either
+\* as a table (a name the table does not list is allowed) or as the allow set of Select.
+SelKey == "#select"
+IsSel(pol) == SelKey \in DOMAIN pol
+PolAt(pol, n, k) ==
+  IF IsSel(pol) THEN (IF n \in pol[SelKey] THEN PolOk
+                      ELSE IF k = "Write" THEN "E_DENIED"
+                      ELSE IF k = "List" /\ n = Star THEN PolOk
+                      ELSE "E_UNKNOWN")
+  ELSE IF n \in DOMAIN pol THEN pol[n][k] ELSE PolOk
+Allowed(pol, x) == PolAt(pol, x, "Read") = PolOk
+Fails(pol, q) == PolAt(pol, q.n, q.k) # PolOk
 FirstFail(cs, pol) ==      \* index of the first failing consultation, 0 if none
   LET bad == {i \in 1..Len(cs) : Fails(pol, cs[i])} IN
   IF bad = {} THEN 0 ELSE CHOOSE i \in bad : \A j \in bad : i <= j
 Rejected(o, pol) == FirstFail(StaticCons(o), pol) > 0
-RejectId(o, pol) == LET cs == StaticCons(o) IN LET q == cs[FirstFail(cs, pol)] IN pol[q.n][q.k]
+RejectId(o, pol) == LET cs == StaticCons(o) IN LET q == cs[FirstFail(cs, pol)] IN PolAt(pol, q.n, q.k)
 
 \* Select(allow): the derived policy.  allow is a set of names (possibly containing "*").
-SelPol(allow, names) ==
-  [n \in names \cup {Star} |-> [k \in Kinds |->
-     IF n \in allow THEN PolOk
-     ELSE IF k = "Write" THEN "E_DENIED"
-     ELSE IF k = "List" /\ n = Star THEN PolOk
-     ELSE "E_UNKNOWN"]]
+SelPol(allow, names) == (SelKey :> allow)     \* (names: the universe the caller has in mind; not needed)
 
 Filter(s, Keep(_)) == SelectSeq(s, Keep)
 BackendUnchanged == UNCHANGED state
 ContentUnchanged == UNCHANGED <<imm, blobs, mans, tags, ups>>
 
+CNames(o) == (IF "r" \in DOMAIN o /\ o.op # "ListRepos" THEN {o.r} ELSE {}) \cup (IF o.op = "MountBlob" THEN {o.from} ELSE {})
 CheckedApply(o, pol, sc) ==
   LET cs == StaticCons(o)
       k == FirstFail(cs, pol) IN
   IF k > 0 THEN
      \* first failing consultation's error is the result; the backend is not touched
-     /\ wres' = ErrR(PolCode(pol[cs[k].n][cs[k].k]))
-     /\ wpe' = pol[cs[k].n][cs[k].k]
+     /\ wres' = ErrR(PolCode(PolAt(pol, cs[k].n, cs[k].k)))
+     /\ wpe' = PolAt(pol, cs[k].n, cs[k].k)
      /\ cons' = SubSeq(cs, 1, k)
      /\ bcalls' = <<>>
      /\ bscopes' = <<>>
      /\ UNCHANGED vars
+  ELSE IF \E n \in CNames(o) : n \notin Repos THEN
+     \* allowed, but not the name of any repository (an ill-formed name): the single identical
+     \* call, which the backend can only fail; nothing is stored or removed
+     /\ wres' = ErrR("FAIL") /\ res' = ErrR("FAIL")
+     /\ touched' \in {touched, touched \cup (CNames(o) \cap Repos)}
+     /\ UNCHANGED <<imm, blobs, mans, tags, ups>>
+     /\ wpe' = None /\ cons' = cs
+     /\ bcalls' = BCallsOf(o)
+     /\ bscopes' = [i \in 1..NIface(BCallsOf(o)) |-> sc]
   ELSE
      \* delegate: the single call, identical arguments, identical context
      /\ Apply(o)
@@ -128,7 +144,7 @@ CheckedApply(o, pol, sc) ==
      /\ IF o.op = "ListRepos" /\ res'.ok
           THEN \* each listed item is checked for Read; an item that fails is omitted
                /\ cons' = cs \o [i \in 1..Len(res'.items) |-> Q(res'.items[i], "Read")]
-               /\ wres' = OkItems(Filter(res'.items, LAMBDA x : pol[x]["Read"] = PolOk))
+               /\ wres' = OkItems(Filter(res'.items, LAMBDA x : Allowed(pol, x)))
           ELSE cons' = cs /\ wres' = res'
 
 \* A backend whose repository listing fails after delivering k items (it may hand a further
@@ -136,15 +152,33 @@ CheckedApply(o, pol, sc) ==
 \* an error is the last).  What was delivered before is checked and filtered as usual; the
 \* listing ends with the backend's error; the name that came with the error is not an item.
 Min(a, b) == IF a < b THEN a ELSE b
-CheckedListFail(o, pol, sc, k) ==
+\* The general case: the backend's listing is whatever it is - `script`, if scripted: any sequence
+\* of strings, names repeated, out of order, ill-formed - and may fail after k items (k < 0: it
+\* does not).  Every delivered item is checked for Read, occurrence by occurrence, and is passed on
+\* iff the check allows it (HEAD passes allowed duplicates on as they come; so does this).
+CheckedListing(o, pol, sc, scripted, script, k) ==
   /\ o.op = "ListRepos" /\ ~Rejected(o, pol)
-  /\ Apply(o) /\ res'.ok            \* res: what the backend would have listed in full
-  /\ LET got == SubSeq(res'.items, 1, Min(k, Len(res'.items))) IN
+  /\ IF scripted THEN res' = OkItems(script) /\ UNCHANGED state
+                  ELSE Apply(o) /\ res'.ok            \* res: what the backend would have listed in full
+  /\ LET got == IF k < 0 THEN res'.items ELSE SubSeq(res'.items, 1, Min(k, Len(res'.items)))
+         out == Filter(got, LAMBDA x : Allowed(pol, x)) IN
      /\ cons' = StaticCons(o) \o [i \in 1..Len(got) |-> Q(got[i], "Read")]
-     /\ wres' = [ErrR("FAIL") EXCEPT !.items = Filter(got, LAMBDA x : pol[x]["Read"] = PolOk)]
+     /\ wres' = IF k < 0 THEN OkItems(out) ELSE [ErrR("FAIL") EXCEPT !.items = out]
   /\ wpe' = None /\ bcalls' = BCallsOf(o) /\ bscopes' = <<sc>>
+CheckedListFail(o, pol, sc, k) == CheckedListing(o, pol, sc, FALSE, <<>>, k)
+\* A backend that answers the call with an error of its own (mounts unsupported, pushes denied,
+\* ...).  The wrapper is transparent to that too: the single identical call, the backend's error
+\* as the result, nothing changed (the backend refused before doing anything).
+FaultOps == {"MountBlob", "PushBlob", "PushManifest", "DeleteBlob", "DeleteManifest", "DeleteTag",
+             "GetBlob", "ResolveBlob", "ResolveManifest", "ResolveTag"}
+CheckedFault(o, pol, sc, code) ==
+  /\ o.op \in FaultOps /\ ~Rejected(o, pol)
+  /\ res' = ErrR(code) /\ UNCHANGED state
+  /\ wres' = ErrR(code) /\ wpe' = None
+  /\ cons' = StaticCons(o)
+  /\ bcalls' = BCallsOf(o) /\ bscopes' = <<sc>>
 \* the name delivered together with an error is nothing the policy rejects
-ErrItemOK(name, pol) == name = "" \/ (name \in DOMAIN pol /\ pol[name]["Read"] = PolOk)
+ErrItemOK(name, pol) == name = "" \/ Allowed(pol, name)
 
 \* Nested checkers.  AccessChecker / Select wrappers may be stacked, and several wrappers may be
 \* built on the same inner wrapper; each is a wrapper of its own with its own policy.  A call
@@ -161,13 +195,13 @@ NestFirstRej(o, pols) ==
 RECURSIVE ReachLevel(_, _, _)       \* the items that level i is handed by level i+1 (the backend's for the innermost)
 ReachLevel(items, pols, i) ==
   IF i = Len(pols) THEN items
-  ELSE Filter(ReachLevel(items, pols, i + 1), LAMBDA x : pols[i + 1][x]["Read"] = PolOk)
+  ELSE Filter(ReachLevel(items, pols, i + 1), LAMBDA x : Allowed(pols[i + 1], x))
 NestApply(o, pols, sc) ==
   LET cs == StaticCons(o)
       j == NestFirstRej(o, pols) IN
   IF j > 0 THEN
      LET k == FirstFail(cs, pols[j])
-         id == pols[j][cs[k].n][cs[k].k] IN
+         id == PolAt(pols[j], cs[k].n, cs[k].k) IN
      /\ wres' = ErrR(PolCode(id)) /\ wpe' = id
      /\ cons' = [i \in 1..Len(pols) |-> IF i < j THEN cs ELSE IF i = j THEN SubSeq(cs, 1, k) ELSE <<>>]
      /\ bcalls' = <<>> /\ bscopes' = <<>>
@@ -180,11 +214,11 @@ NestApply(o, pols, sc) ==
      /\ IF o.op = "ListRepos" /\ res'.ok
           THEN /\ cons' = [i \in 1..Len(pols) |->
                             LET in == ReachLevel(res'.items, pols, i) IN cs \o [x \in 1..Len(in) |-> Q(in[x], "Read")]]
-               /\ wres' = OkItems(Filter(ReachLevel(res'.items, pols, 1), LAMBDA x : pols[1][x]["Read"] = PolOk))
+               /\ wres' = OkItems(Filter(ReachLevel(res'.items, pols, 1), LAMBDA x : Allowed(pols[1], x)))
           ELSE cons' = [i \in 1..Len(pols) |-> cs] /\ wres' = res'
 \* the nest is the conjunction of its policies: a call reaches the backend iff every level allows
 \* it; a rejected call is the outermost refusing level's; listings show what every level allows
-AllAllow(pols, x) == \A i \in 1..Len(pols) : pols[i][x]["Read"] = PolOk
+AllAllow(pols, x) == \A i \in 1..Len(pols) : Allowed(pols[i], x)
 NestStep(o, pols) ==
   LET j == NestFirstRej(o, pols) IN
   /\ j > 0 => /\ BackendUnchanged /\ bcalls' = <<>> /\ ~wres'.ok
@@ -202,28 +236,31 @@ RejectedNeverReachesBackendStep(o, pol) ==
   Rejected(o, pol) => BackendUnchanged /\ bcalls' = <<>>
 ListingFilteredStep(o, pol) ==
   \* (also for a listing that ends in an error: what it delivered before)
-  o.op = "ListRepos" => \A i \in 1..Len(wres'.items) : pol[wres'.items[i]]["Read"] = PolOk
+  o.op = "ListRepos" => \A i \in 1..Len(wres'.items) : Allowed(pol, wres'.items[i])
 ErrorIsPolicyErrorStep(o, pol) ==
   /\ Rejected(o, pol) => /\ ~wres'.ok /\ wpe' = RejectId(o, pol) /\ wres'.code = PolCode(RejectId(o, pol))
                          /\ cons'[Len(cons')] = StaticCons(o)[FirstFail(StaticCons(o), pol)]
   /\ ~Rejected(o, pol) => wpe' = None
 AllowedIsTransparentStep(o, pol) ==
-  ~Rejected(o, pol) =>
+  (~Rejected(o, pol) /\ CNames(o) \subseteq Repos) =>
      /\ Apply(o)                                     \* the backend made exactly the step of the call itself
      /\ bcalls' = BCallsOf(o)
      /\ IF o.op = "ListRepos" /\ res'.ok
           THEN \* exactly the allowed ones among what the backend listed, in its order
                /\ wres'.ok
                /\ \A x \in Repos : (\E i \in 1..Len(wres'.items) : wres'.items[i] = x)
-                                     <=> (pol[x]["Read"] = PolOk /\ \E i \in 1..Len(res'.items) : res'.items[i] = x)
+                                     <=> (Allowed(pol, x) /\ \E i \in 1..Len(res'.items) : res'.items[i] = x)
                /\ \A i, j \in 1..Len(wres'.items) : i < j => Pos.r[wres'.items[i]] < Pos.r[wres'.items[j]]
           ELSE wres' = res'
+\* an allowed call with an ill-formed name is handed on as it is, and fails there
+IllFormedHandedOnStep(o, pol) ==
+  (~Rejected(o, pol) /\ ~(CNames(o) \subseteq Repos)) => bcalls' = BCallsOf(o) /\ ~wres'.ok /\ ContentUnchanged
 SelectKindsOK(allow, names) ==      \* the error kinds the selecting wrapper is documented to give
   \A n \in names \ allow : \A k \in Kinds :
-     PolCode(SelPol(allow, names)[n][k]) = (IF k = "Write" THEN "DENIED" ELSE "NAME_UNKNOWN")
+     PolCode(PolAt(SelPol(allow, names), n, k)) = (IF k = "Write" THEN "DENIED" ELSE "NAME_UNKNOWN")
 C12Step(o, pol) ==
   /\ RejectedNeverReachesBackendStep(o, pol) /\ ListingFilteredStep(o, pol)
-  /\ ErrorIsPolicyErrorStep(o, pol) /\ AllowedIsTransparentStep(o, pol)
+  /\ ErrorIsPolicyErrorStep(o, pol) /\ AllowedIsTransparentStep(o, pol) /\ IllFormedHandedOnStep(o, pol)
 
 \* ------------------------------------------------------------------ C13 --
 Slash == <<47>>
@@ -320,6 +357,16 @@ SubListFail(o, sc, k) ==
   /\ bcalls' = <<BCall(bo)>>
   /\ bscopes' = <<SubScope(sc)>>
   /\ wpe' = None /\ cons' = <<>>
+\* The backend refuses the call (see CheckedFault): through the view that is the one call under
+\* the mapped names and the backend's error, whatever the error is - no second attempt by other
+\* means, in particular none that names anything else.
+SubFault(o, sc, code) ==
+  /\ o.op \in FaultOps /\ (\A n \in OpNames(o) : ValidName(n))
+  /\ res' = ErrR(code) /\ UNCHANGED state
+  /\ wres' = ErrR(code) /\ wpe' = None /\ cons' = <<>>
+  /\ bcalls' = BCallsOf(MapOp(o)) /\ bscopes' = <<SubScope(sc)>>
+FaultedStep(code) == ~wres'.ok /\ wres'.code = code /\ BackendUnchanged /\ Len(bcalls') = 1
+
 \* ---- C13 properties
 \* every backend call made through the view names only repositories under the prefix, or
 \* strings that are not repository names at all
